@@ -1,0 +1,57 @@
+// Copyright © 2020 Attestant Limited.
+// Licensed under the Apache License, Version 2.0 (the "License");
+// you may not use this file except in compliance with the License.
+// You may obtain a copy of the License at
+//
+//     http://www.apache.org/licenses/LICENSE-2.0
+//
+// Unless required by applicable law or agreed to in writing, software
+// distributed under the License is distributed on an "AS IS" BASIS,
+// WITHOUT WARRANTIES OR CONDITIONS OF ANY KIND, either express or implied.
+// See the License for the specific language governing permissions and
+// limitations under the License.
+
+//go:build verif
+
+package verifhook
+
+import (
+	"bytes"
+	"context"
+	"fmt"
+	"os"
+	"runtime"
+	"strconv"
+	"sync"
+)
+
+// When VERIF_TRACE_FILE is set, every observation point is appended to that file as one JSON line
+// (sequence number taken under a mutex, goroutine id as the actor).  This lets the repository's own
+// tests serve as trace sources for an external checker.
+func init() {
+	path := os.Getenv("VERIF_TRACE_FILE")
+	if path == "" {
+		return
+	}
+	f, err := os.OpenFile(path, os.O_CREATE|os.O_WRONLY|os.O_APPEND, 0o600)
+	if err != nil {
+		return
+	}
+	var mu sync.Mutex
+	seq := 0
+	Hook = func(_ context.Context, site string, key []byte, val []byte) error {
+		var buf [64]byte
+		b := buf[:runtime.Stack(buf[:], false)]
+		b = bytes.TrimPrefix(b, []byte("goroutine "))
+		gid := int64(-1)
+		if i := bytes.IndexByte(b, ' '); i > 0 {
+			gid, _ = strconv.ParseInt(string(b[:i]), 10, 64)
+		}
+		mu.Lock()
+		defer mu.Unlock()
+		seq++
+		fmt.Fprintf(f, "{\"seq\":%d,\"pid\":%d,\"gid\":%d,\"site\":%q,\"key\":\"%x\",\"val\":\"%x\",\"nil\":%t}\n", seq, os.Getpid(), gid, site, key, val, val == nil)
+
+		return nil
+	}
+}
